@@ -91,6 +91,8 @@ def generate(tier, seed, work, stats):
     for i, c in enumerate(c08.grammar_cases(tier, seed, work, stats, gfam, [("upper", "ab")])):
         # every third grammar with variables whose values equal terminal values (to_pda keeps them apart with a prefix)
         cases.append(dict(kind="cfg", prods=c["prods"], vpool="clash" if i % 3 == 2 else "upper", tpool="ab", family=c["family"]))
+        if i % 4 == 1:      # integer variables next to terminals that are the same digits as strings (PDA.to_cfg numbers its variables)
+            cases.append(dict(kind="cfg", prods=c["prods"], vpool="int0", tpool="digits", family=c["family"] + "-digit-names"))
     for c in cases:
         c["L"] = L(tier)
     # P3: the calls the repository's own tests make, re-judged by the trace specification
@@ -130,6 +132,9 @@ def replay(case):
     else:
         g, start, tagged = cfgh.make(case["prods"], case["vpool"], case["tpool"])
         G = cfgh.project(g)
+        tm = cfgh.TERM_POOLS[case["tpool"]]
+        words = pdah.words_upto([tm["a"], tm["b"]], Lw)
+        tw = [[cfgh.tt(x)[2:] for x in w] for w in words]
         r = guard.call(g.to_pda, timeout=3.0)
         ev = {"op": "to_pda", "G": G, "words": tw, "L": Lw}
         if r[0] == "ok":
